@@ -8,8 +8,8 @@ open Neutrino.PushTx
 #print axioms C15_rebroadcast_walks_snapshot
 #print axioms C15_order
 #print axioms C15_order_whole
-#print axioms C15_verdict_counterexample
-#print axioms C15_verdict_partial
+#print axioms C15_verdict
+#print axioms C15_rejecters_replied
 #print axioms C15_verdict_threshold
 #print axioms C15_verdict_no_reply
 #print axioms C15_nonblocking
